@@ -858,6 +858,19 @@ class Normaliser:
         cands = {k: v[0] for k, v in cands.items() if len(v) == 1}
         if not cands:
             return
+        # a name that any other class body binds as well (an override in a subclass, whatever its value) is not one constant
+        nbind = {}
+        for mod in self.modules.values():
+            for node in ast.walk(mod.tree):
+                if isinstance(node, ast.ClassDef):
+                    for st in node.body:
+                        for t in (st.targets if isinstance(st, ast.Assign) else [st.target] if isinstance(st, (ast.AnnAssign, ast.AugAssign)) else []):
+                            for n in ast.walk(t):
+                                if isinstance(n, ast.Name) and n.id in cands:
+                                    nbind[n.id] = nbind.get(n.id, 0) + 1
+        cands = {k: v for k, v in cands.items() if nbind.get(k, 0) == 1}
+        if not cands:
+            return
         for mod in self.modules.values():
             for n in ast.walk(mod.tree):
                 if isinstance(n, ast.Attribute) and isinstance(n.ctx, (ast.Store, ast.Del)) and n.attr in cands:
@@ -1926,8 +1939,8 @@ class Normaliser:
                 return True
             if isinstance(e, ast.Name):
                 return e.id not in bound_in_body
-            if isinstance(e, ast.Attribute):
-                return _attr_chain_only(e) and root_and_attrs(e)[0] not in bound_in_body
+            if isinstance(e, ast.Attribute) and _attr_chain_only(e):
+                return root_and_attrs(e)[0] not in bound_in_body
             if isinstance(e, ast.Call) and isinstance(e.func, ast.Name) and e.func.id == 'slice' and not e.keywords:
                 return all(isinstance(a, ast.Constant) or (isinstance(a, ast.UnaryOp) and isinstance(a.operand, ast.Constant)) for a in e.args)
             if isinstance(e, (ast.Tuple, ast.List)):
@@ -2054,12 +2067,50 @@ class Normaliser:
 
             def visit_ListComp(self, node):
                 self.generic_visit(node)
-                return self._flat(node)
+                node = self._flat(node)
+                # [E(x) for x in (c1, c2, ..)] over a literal table of atoms, x a new name  ->  [E(c1), E(c2), ..]
+                if len(node.generators) == 1 and not node.generators[0].ifs and not node.generators[0].is_async:
+                    gen = node.generators[0]
+                    tn = tnames(gen.target)
+                    if tn and not (tn & known) and isinstance(gen.iter, (ast.Tuple, ast.List)):
+                        elems = norm._table_elements(gen.iter, tn)
+                        if elems is not None and len(elems) <= 16 and all(isinstance(n, (ast.Constant, ast.Tuple, ast.List, ast.UnaryOp, ast.USub, ast.Load)) for e in elems for n in ast.walk(e)) \
+                                and not any(isinstance(n, (ast.Lambda,) + COMPS) for n in ast.walk(node.elt)):
+                            binds = [norm._bind_target(gen.target, e) for e in elems]
+                            if all(b is not None for b in binds):
+                                norm.log.append(f'N7 {path}::{qual}: comprehension over a literal table of {len(elems)} constants written out')
+                                return ast.copy_location(ast.List(elts=[_Rename({}, b).visit(copy.deepcopy(node.elt)) for b in binds], ctx=ast.Load()), node)
+                return node
 
             def visit_GeneratorExp(self, node):
                 self.generic_visit(node)
                 return self._flat(node)
+
+            def visit_Assign(self, node):
+                self.generic_visit(node)
+                # a, b = [x, y]  ->  a, b = (x, y): the list is consumed by the unpacking
+                if len(node.targets) == 1 and isinstance(node.targets[0], ast.Tuple) and isinstance(node.value, ast.List) \
+                        and len(node.value.elts) == len(node.targets[0].elts) and not any(isinstance(e, ast.Starred) for e in node.value.elts):
+                    node.value = ast.copy_location(ast.Tuple(elts=node.value.elts, ctx=ast.Load()), node.value)
+                    node.value._kv_new = True
+                return node
         G().visit(func)
+
+        # a, b = (x, y) left behind by the rewriting above -> a = x; b = y
+        def resplit(stmts):
+            out = []
+            for st in stmts:
+                for name in ('body', 'orelse', 'finalbody'):
+                    b = getattr(st, name, None)
+                    if isinstance(b, list) and b and isinstance(b[0], ast.stmt) and not isinstance(st, (ast.FunctionDef, ast.ClassDef)):
+                        setattr(st, name, resplit(b))
+                sp_ = None
+                if isinstance(st, ast.Assign) and len(st.targets) == 1 and isinstance(st.targets[0], ast.Tuple) and isinstance(st.value, ast.Tuple) \
+                        and getattr(st.value, '_kv_new', False):
+                    sp_ = _split_tuple_assign(st, names_may_be_impure=True)
+                out.extend(sp_ if sp_ else [st])
+            return out
+        func.body = resplit(func.body)
 
         # slice(a, b) used as an index  ->  a:b
         class S(ast.NodeTransformer):
@@ -2463,6 +2514,18 @@ class Normaliser:
                             continue
                         return True
         return False
+
+
+def unroll_tables(func):
+    """loops / comprehensions over literal tables in `func` (a private copy owned by the caller) written out row by row and
+    getattr/setattr with literal names folded - the table passes of the normaliser applied to one function in which every
+    local counts as new.  Used by rules that specialise an inherited method to one class (index.specialised)."""
+    n = Normaliser.__new__(Normaliser)
+    n.log, n.ntypes, n.ret_ntype, n.helpers, n.modules, n.base = [], {}, {}, {}, {}, {}
+    n._loops_and_tuples('', func.name, func, set())
+    Normaliser._fold_attr_strings(func)
+    ast.fix_missing_locations(func)
+    return func
 
 
 def apply(modules: dict) -> list:
